@@ -226,6 +226,14 @@ def const_value(node):
   if isinstance(node, ast.UnaryOp) and isinstance(node.op, ast.USub):
     v = const_value(node.operand)
     return -v if v is not None else None
+  # a module-level constant with one value program-wide (NOTES_PER_OCTAVE, constants.NOTES_PER_OCTAVE) is that value
+  if isinstance(node, (ast.Name, ast.Attribute)):
+    from . import nf
+    nm = node.id if isinstance(node, ast.Name) else node.attr
+    if nm.isupper() or (nm.replace('_', '').isupper() and nm.replace('_', '')):
+      v = nf.GLOBAL_CONSTS.get(nm)
+      if isinstance(v, (int, float)) and not isinstance(v, bool) and (isinstance(node, ast.Name) or isinstance(node.value, ast.Name)):
+        return v
   return None
 
 
